@@ -349,6 +349,14 @@ func (g *gen) genListeners() {
 		}
 		g.add("srv.ntske", "nt,stream", lib.B(s))
 	}
+	// connections that stall before or inside the TLS handshake and stay open during the sentinel
+	for _, n := range []int{1, 2, 16} {
+		for _, hb := range []int{0, 1, 5, 6, 50, 100000} {
+			g.add("srv.kestall", "nt,hello", lib.V(lib.I(int64(n)), lib.I(int64(hb)), lib.B(nil)))
+		}
+		g.add("srv.kestall", "nt,raw", lib.V(lib.I(int64(n)), "-1", lib.B(r.Bytes(1+r.Intn(40)))))
+		g.add("srv.kestall", "nt,raw", lib.V(lib.I(int64(n)), "-1", lib.B([]byte{0x16, 0x03, 0x01, 0xff, 0xff})))
+	}
 	// ---- QUIC-over-SCION socket of the NTS-KE server ----
 	qbase := func() *scionSpec {
 		h := e.baseSpec(kePortSCION)
